@@ -94,6 +94,19 @@ type Interp struct {
 	tainted      string
 	sched        *schedState
 	goInline     bool
+	makeBound    int
+	abstract     map[string]bool
+	pristine     *pristineHeap
+	pristineMode bool
+	memo         map[interface{}]interface{}
+	codecSeq     int
+	codecs       []codecRec
+	abstractUsed bool
+}
+
+type codecRec struct {
+	kind     string
+	enc, dec []*Term
 }
 
 type obsRec struct {
@@ -209,30 +222,51 @@ func (in *Interp) constValue(c *ssa.Const) Value {
 	return Poison{"const of type " + t.String()}
 }
 
+// Package-level state: initialisers run once per instance into a pristine heap; every path works on a lazily
+// materialised deep copy (aliasing preserved through the per-path memo).
+type pristineHeap struct {
+	globals  map[*ssa.Global]*Node
+	initDone map[*ssa.Package]bool
+}
+
 func (in *Interp) globalNode(g *ssa.Global) *Node {
+	if in.pristineMode {
+		return in.pristineGlobal(g)
+	}
 	if n, ok := in.globals[g]; ok {
 		return n
 	}
-	in.ensureInit(g.Pkg)
-	if n, ok := in.globals[g]; ok {
-		return n
-	}
-	n := in.newNode(g.Type().(*types.Pointer).Elem(), nil)
+	pn := in.pristineGlobal(g)
+	n := in.cloneNode(pn)
 	in.globals[g] = n
 	return n
 }
 
-// ensureInit runs the variable-initialiser part of a package's synthetic init function.
+func (in *Interp) pristineGlobal(g *ssa.Global) *Node {
+	ph := in.pristine
+	if n, ok := ph.globals[g]; ok && (g.Pkg == nil || ph.initDone[g.Pkg]) {
+		return n
+	}
+	in.ensureInit(g.Pkg)
+	if n, ok := ph.globals[g]; ok {
+		return n
+	}
+	n := in.newNode(g.Type().(*types.Pointer).Elem(), nil)
+	ph.globals[g] = n
+	return n
+}
+
+// ensureInit runs the variable-initialiser part of a package's synthetic init function (into the pristine heap).
 func (in *Interp) ensureInit(pkg *ssa.Package) {
-	if pkg == nil || in.initDone[pkg] {
+	ph := in.pristine
+	if pkg == nil || ph.initDone[pkg] {
 		return
 	}
-	in.initDone[pkg] = true
-	// allocate all globals first
+	ph.initDone[pkg] = true
 	for _, m := range pkg.Members {
 		if g, ok := m.(*ssa.Global); ok {
-			if _, have := in.globals[g]; !have {
-				in.globals[g] = in.newNode(g.Type().(*types.Pointer).Elem(), nil)
+			if _, have := ph.globals[g]; !have {
+				ph.globals[g] = in.newNode(g.Type().(*types.Pointer).Elem(), nil)
 			}
 		}
 	}
@@ -243,11 +277,118 @@ func (in *Interp) ensureInit(pkg *ssa.Package) {
 	if !in.sh.wantInit(pkg.Pkg.Path()) {
 		return
 	}
-	saveSteps := in.steps
+	saveSteps, saveMode, saveTry, savePos := in.steps, in.pristineMode, in.tryDepth, in.lastPos
+	in.pristineMode = true
+	in.tryDepth = 0
 	fr := &Frame{fn: initFn, info: in.funcInfo(initFn), visits: map[int]int{}}
 	fr.env = make([]Value, fr.info.n)
 	in.runInit(fr)
-	in.steps = saveSteps
+	in.steps, in.pristineMode, in.tryDepth, in.lastPos = saveSteps, saveMode, saveTry, savePos
+}
+
+func (in *Interp) cloneNode(n *Node) *Node {
+	if n == nil {
+		return nil
+	}
+	if c, ok := in.memo[n]; ok {
+		return c.(*Node)
+	}
+	in.nodeSeq++
+	c := &Node{T: n.T, id: in.nodeSeq}
+	in.memo[n] = c
+	if n.Kids != nil {
+		c.Kids = make([]*Node, len(n.Kids))
+		for i, k := range n.Kids {
+			c.Kids[i] = in.cloneNode(k)
+		}
+	} else {
+		c.V = in.cloneValue(n.V)
+	}
+	return c
+}
+
+func (in *Interp) cloneValue(v Value) Value {
+	switch x := v.(type) {
+	case nil, *Term, FloatV, *StrV, Poison:
+		return v
+	case *StructV:
+		if x == nil {
+			return x
+		}
+		f := make([]Value, len(x.F))
+		for i := range f {
+			f[i] = in.cloneValue(x.F[i])
+		}
+		return &StructV{F: f}
+	case *ArrayV:
+		e := make([]Value, len(x.E))
+		for i := range e {
+			e[i] = in.cloneValue(x.E[i])
+		}
+		return &ArrayV{E: e}
+	case TupleV:
+		t := make(TupleV, len(x))
+		for i := range t {
+			t[i] = in.cloneValue(x[i])
+		}
+		return t
+	case PtrV:
+		x.N = in.cloneNode(x.N)
+		return x
+	case SliceV:
+		x.Arr = in.cloneNode(x.Arr)
+		return x
+	case *MapObj:
+		if x == nil {
+			return x
+		}
+		if c, ok := in.memo[x]; ok {
+			return c.(*MapObj)
+		}
+		in.objSeq++
+		c := &MapObj{KT: x.KT, VT: x.VT, id: in.objSeq}
+		in.memo[x] = c
+		for _, e := range x.Entries {
+			if !e.Deleted {
+				c.Entries = append(c.Entries, &MapEntry{K: in.cloneValue(e.K), V: in.cloneValue(e.V)})
+			}
+		}
+		return c
+	case IfaceV:
+		x.V = in.cloneValue(x.V)
+		return x
+	case *FuncV:
+		if x == nil || len(x.Bindings) == 0 {
+			return x
+		}
+		if c, ok := in.memo[x]; ok {
+			return c.(*FuncV)
+		}
+		c := &FuncV{Fn: x.Fn, Builtin: x.Builtin}
+		in.memo[x] = c
+		c.Bindings = make([]Value, len(x.Bindings))
+		for i := range c.Bindings {
+			c.Bindings[i] = in.cloneValue(x.Bindings[i])
+		}
+		return c
+	case *ChanObj:
+		if x == nil {
+			return x
+		}
+		if c, ok := in.memo[x]; ok {
+			return c.(*ChanObj)
+		}
+		in.objSeq++
+		c := &ChanObj{Closed: x.Closed, Cap: x.Cap, ET: x.ET, id: in.objSeq}
+		in.memo[x] = c
+		for _, q := range x.Q {
+			c.Q = append(c.Q, in.cloneValue(q))
+		}
+		return c
+	case *RangeIter:
+		return x
+	}
+	panic(fmt.Sprintf("cloneValue: %T", v))
 }
 
 // runInit executes init, tolerating unsupported operations (they poison their result).
@@ -334,6 +475,13 @@ func (in *Interp) initInstr(fr *Frame, ins ssa.Instruction) {
 func (in *Interp) callFunction(fn *ssa.Function, args []Value, bindings []Value) Value {
 	if ix := in.sh.intrinsic(fn); ix != nil {
 		return ix(in, fn, args)
+	}
+	if len(in.abstract) > 0 && in.abstract[fn.String()] {
+		if ax, ok := abstractStubs[fn.String()]; ok {
+			in.abstractUsed = true
+			return ax(in, fn, args)
+		}
+		in.unsupportedf("no abstract stub for %s", fn.String())
 	}
 	if fn.Blocks == nil {
 		in.unsupportedf("call to function without body %s", fn.String())
@@ -1082,7 +1230,20 @@ func (in *Interp) makeSlice(et types.Type, lv, cv Value) Value {
 	capLimit := in.sh.opts.AllocCap
 	if !lt.IsConst() {
 		l64 := in.tb.Resize(lt, 64, true)
-		in.obligation(in.tb.Cmp(OpUle, l64, in.tb.Const(64, uint64(capLimit))), "makeslice: len out of range or allocation above cap")
+		// negative length panics
+		in.obligation(in.tb.Cmp(OpSle, in.tb.Const(64, 0), l64), "makeslice: len out of range")
+		// allocation amplification: reported as a note (no sanitizer confirms an OOM), see DESIGN.md §2.6
+		if in.sol.CheckWith(in.tb.Cmp(OpUlt, in.tb.Const(64, uint64(capLimit)), l64)) == Sat {
+			in.sh.noteAlloc(in.siteString())
+		}
+		// symbolic lengths above the bound are outside the claim (cut, counted)
+		bound := in.makeBound
+		if bound == 0 {
+			bound = 64
+		}
+		if !in.branch(in.tb.Cmp(OpUle, l64, in.tb.Const(64, uint64(bound)))) {
+			panic(cutPath{fmt.Sprintf("symbolic allocation length > %d at %s", bound, in.siteFunc())})
+		}
 	}
 	n := in.concInt(lt, "make len")
 	c := n
